@@ -177,10 +177,10 @@ def ser_step(ser, a, args):
 
 # ---------------------------------------------------------------------- one instance
 class Instance:
-    def __init__(self, idx, gen, n, m):
+    def __init__(self, idx, gen, n, m, d):
         self.idx = idx
         self.gen = gen
-        self.n, self.m = n, m
+        self.n, self.m, self.d = n, m, d
         self.plain = gen.plain
         self.oser = CompactSer(self.plain)
         self.insts = gen.ground_instances()
@@ -201,10 +201,10 @@ class Instance:
                             gopt(None if o is None else ser_step(self.oser, o[0], o[1])))
                       for ca, o in zip(c.cacts, c.back)])
         return ("{| k_P := %s;\n k_insts := %s;\n k_inits := %s;\n k_CP := %s;\n k_c0 := %s;\n k_cacts := %s;\n"
-                " k_back := %s;\n k_n := %s; k_m := %s;\n k_red := %s |}" % (
+                " k_back := %s;\n k_n := %s; k_d := %s; k_m := %s;\n k_red := %s |}" % (
                     self.oser.render(), glist([ser_step(self.oser, a, args) for a, args in self.insts]),
                     glist([self.ser_bits(b) for b in self.bits]), c.render(), c.ser_c0(), c.ser_cacts(), back,
-                    gnat(self.n), gnat(self.m), gopt(self.red_text)))
+                    gnat(self.n), gnat(self.d), gnat(self.m), gopt(self.red_text)))
 
     def describe(self):
         return {"problem": str(self.gen.problem), "possible_initial_states": [bits_json(self.gen, b) for b in self.bits],
@@ -274,7 +274,7 @@ def add_dominated_state(gen, rng):
     return True
 
 
-def make_instance(rng, idx, contingent, n, m, stats):
+def make_instance(rng, idx, contingent, n, m, d, stats):
     """generate until an instance is accepted; acceptance is biased towards instances with longer conformant plans"""
     from unified_planning.model import Problem
     while True:
@@ -299,9 +299,17 @@ def make_instance(rng, idx, contingent, n, m, stats):
             orc = SimOracle(gen.plain, gen.gfl)
             plan = orc.belief_search([gen.state_of(b) for b in gen.bits], gen.ground_instances(), n)
         L = None if plan is None else len(plan)
-        keep = {None: 0.15, 0: 0.05, 1: 0.3}.get(L, 1.0)
+        want = idx % 5
+        if want in (0, 3):                 # a conformant plan of length >= 2
+            keep = 1.0 if (L or 0) >= 2 else 0.0
+        elif want == 1:                    # the longer the better
+            keep = 1.0 if (L or 0) >= 3 else (0.1 if L == 2 else 0.0)
+        elif want == 2:                    # anything, mildly biased
+            keep = {None: 0.15, 0: 0.05, 1: 0.3}.get(L, 1.0)
+        else:                              # no conformant plan within the bound, or a one-step plan
+            keep = 1.0 if L is None else (0.5 if L == 1 else 0.0)
         if rng.random() < keep:
-            inst = Instance(idx, gen, n, m)
+            inst = Instance(idx, gen, n, m, d)
             inst.oracle = orc
             inst.py_plan_len = L
             return inst
@@ -381,6 +389,7 @@ def run(ctx):
     nprob = 20 if ctx.quick else 200
     n = 3 if ctx.quick else 5
     m = 40
+    d = 8 if ctx.quick else 12
     stats = {"generated": 0, "instances": 0, "contingent": 0, "explicit": 0, "rejected": 0, "rejected_msgs": {},
              "n_initial_states": {}, "py_conformant_len": {}, "compiled_actions": 0, "merge_or_aux_actions": 0,
              "deliberate_dominated": 0, "reduction_cases": 0, "reduction_dropped": 0, "sound_closed": 0,
@@ -390,7 +399,7 @@ def run(ctx):
     insts, kcases = [], []
     for i in range(nprob):
         contingent = (i % 3 == 2)
-        inst = make_instance(rng, i, contingent, n, m, stats)
+        inst = make_instance(rng, i, contingent, n, m, d, stats)
         gen = inst.gen
         try:
             res, rec = run_compiler(gen, inst.bits)
@@ -523,7 +532,7 @@ def run(ctx):
                 "nodes, i.e. >= 5 edges and a reachable non-initial compiled state; distinct by the serialised case",
         "samples": samples,
         "distribution": stats,
-        "bounds": {"plan_length_soundness_and_belief_search": n, "closure_rounds": m,
+        "bounds": {"belief_search_plan_length": n, "soundness_plan_length": d, "closure_rounds": m,
                    "note": "soundness holds for every plan length on the instances counted in sound_closed"},
         "traces_validated_against_impl": len(kcases),
     }, "translation_validation",
